@@ -185,7 +185,9 @@ def int16_hook(it, v, base, node):
     if not (isinstance(b, VInt) and z3.is_int_value(simp(b.t)) and simp(b.t).as_long() == 16):
         return None
     for n in (2, 4, 8):
-        if it.ctx.branch(z3.And(z3.Length(v.t) == n, z3.InRe(v.t, z3.Loop(HEXRE, n, n))), 'hexlen%d' % n):
+        if it.ctx.branch(z3.Length(v.t) == n, 'hexlen%d' % n):
+            # consequence of the match-object invariant (group 1 is x HH | u HHHH | U H{8}): all hex digits
+            it.ctx.assume(z3.InRe(v.t, z3.Loop(HEXRE, n, n)))
             return VInt(hexval(v.t, n))
     return None
 
@@ -336,3 +338,321 @@ def _(c):
         job['args'] = job['args'][1:]
         return job
     c.replay_prepare = prep
+
+
+# --------------------------------------------------------------------------
+# process_checksums / from_list (C09)
+
+int_ok = z3.Function('py_int_ok_String', z3.StringSort(), z3.IntSort(), z3.BoolSort())
+int_val = z3.Function('py_int_val_String', z3.StringSort(), z3.IntSort(), z3.IntSort())
+OptS = opt_sort(z3.StringSort())
+CkArr = z3.ArraySort(z3.StringSort(), OptS)
+
+
+def _pairs_step(env, acc, tok, idx, seq):
+    # after idx+1 tokens: pairs (seq[0],seq[1]), (seq[2],seq[3]) ... complete pairs only
+    return z3.If(idx % 2 == 1, z3.Store(acc, seq[idx - 1], OptS.some(tok)), acc)
+
+
+pairs_dict = S.Fold('pairs_dict', CkArr, init=lambda env, seq: z3.K(z3.StringSort(), OptS.none), step=_pairs_step, unfold=2)
+
+
+@contract('gemato/manifest.py', 'ManifestFileEntry.process_checksums', props=['C09', 'C18', 'C08'])
+def _(c):
+    c.params(data=TokenSeq)
+    c.returns(TupleT(Int, DictT(Str, Str)))
+    c.only_raises('ManifestSyntaxError')
+    c.requires('has-tag-field', lambda s: z3.Length(s.data) >= 1)
+    c.loop(1, header='while True',
+           vars={'ckname': None, 'ckval': None, 'checksums': DictT(Str, Str)},
+           inv=[('consumed-whole-pairs', lambda s: z3.And(s.cur.it.pos % 2 == 0, s.cur.it.pos >= 0,
+                                                          s.cur.it.pos <= z3.Length(s.cur.it.seq))),
+                ('checksums-are-the-pairs-read-so-far',
+                 lambda s: S.Eq(_arr(s.cur.checksums), pairs_dict(s, s.cur.it.seq, s.cur.it.pos, s.cur.it.seq))),
+                ('iterating-the-checksum-fields',
+                 lambda s: s.cur.it.seq == z3.SubSeq(s.data, 3, z3.Length(s.data) - 3))])
+
+    def ok(s):
+        size, cks = s.result
+        rest = z3.SubSeq(s.data, 3, z3.Length(s.data) - 3)
+        return z3.And(z3.Length(s.data) >= 3, int_ok(s.data[2], 10), size == int_val(s.data[2], 10), size >= 0,
+                      (z3.Length(s.data) - 3) % 2 == 0,
+                      cks == pairs_dict(s, rest, z3.Length(rest), rest))
+    c.ensures('size-and-checksum-pairs', ok)
+
+    def bad(s):
+        return z3.Or(z3.Length(s.data) < 3, z3.Not(int_ok(s.data[2], 10)), int_val(s.data[2], 10) < 0,
+                     (z3.Length(s.data) - 3) % 2 == 1)
+    c.exc_ensures('rejected-only-if-malformed', 'ManifestSyntaxError', bad)
+
+
+def _arr(x):
+    """view of a dict that may still be the empty literal"""
+    if x is None or isinstance(x, (list, dict)):
+        return z3.K(z3.StringSort(), OptS.none)
+    return x
+
+
+def _mk_from_list(clsname, tag, kind):
+    @contract('gemato/manifest.py', clsname + '.from_list', props=['C09', 'C18', 'C08', 'C04'])
+    def _(c):
+        c.params(cls=Any, data=TokenSeq)
+        c.returns(NewObj(clsname))
+        c.only_raises('ManifestSyntaxError')
+        if kind != 'DIST':
+            c.requires('first-field-is-the-tag', lambda s: z3.And(z3.Length(s.data) >= 1, s.data[0] == STR(tag)))
+        else:
+            c.requires('has-tag-field', lambda s: z3.Length(s.data) >= 1)
+
+        def setup(it, fr, bound):
+            it.engine.re_sub_hook = re_sub_hook
+            bound['cls'] = VClass(clsname, 'gemato.manifest')
+            fr.locals['cls'] = bound['cls']
+            it.entry_args['cls'] = bound['cls']
+        c.setup = setup
+
+        def fields(s):
+            r = s.result
+            d = s.data
+            conj = [r.is_class(clsname)]
+            if kind == 'IGNORE':
+                conj += [z3.Length(d) == 2, unescape_ok(d[1]), r.path == unescape(d[1])]
+            else:
+                rest = z3.SubSeq(d, 3, z3.Length(d) - 3)
+                conj += [z3.Length(d) >= 3, unescape_ok(d[1]), int_ok(d[2], 10), r.size == int_val(d[2], 10), r.size >= 0,
+                         (z3.Length(d) - 3) % 2 == 0,
+                         r.checksums == pairs_dict(s, rest, z3.Length(rest), rest)]
+                if kind == 'AUX':
+                    conj += [r.aux_path == unescape(d[1])]
+                else:
+                    conj += [r.path == unescape(d[1])]
+                if kind == 'DIST':
+                    conj += [z3.Not(z3.Contains(r.path, STR('/')))]
+            if kind != 'AUX':
+                conj += [z3.Length(r.path) > 0, z3.SubString(r.path, 0, 1) != STR('/')]
+            else:
+                conj += [z3.Length(r.aux_path) > 0, z3.SubString(r.aux_path, 0, 1) != STR('/'),
+                         r.path == z3.Concat(STR('files/'), r.aux_path)]
+            return z3.And(*conj)
+        c.ensures('entry-fields-are-the-decoded-tokens', fields)
+
+        def prep(job, model):
+            job['qualname'] = clsname + '.from_list'
+            job['args'] = job['args'][1:]
+            return job
+        c.replay_prepare = prep
+    return _
+
+
+for _cn, _tag, _kind in (('ManifestEntryIGNORE', 'IGNORE', 'IGNORE'), ('ManifestEntryMANIFEST', 'MANIFEST', 'FILE'),
+                         ('ManifestEntryDATA', 'DATA', 'FILE'), ('ManifestEntryDIST', 'DIST', 'DIST'),
+                         ('ManifestEntryEBUILD', 'EBUILD', 'FILE'), ('ManifestEntryMISC', 'MISC', 'FILE'),
+                         ('ManifestEntryAUX', 'AUX', 'AUX')):
+    _mk_from_list(_cn, _tag, _kind)
+
+strptime_ok = z3.Function('strptime_ok__Y__m__dT_H__M__SZ', z3.StringSort(), z3.BoolSort())
+
+
+@contract('gemato/manifest.py', 'ManifestEntryTIMESTAMP.from_list', props=['C09', 'C18', 'C08', 'C11'])
+def _(c):
+    c.params(cls=Any, data=TokenSeq)
+    c.returns(NewObj('ManifestEntryTIMESTAMP'))
+    c.only_raises('ManifestSyntaxError')
+    c.requires('first-field-is-the-tag', lambda s: z3.And(z3.Length(s.data) >= 1, s.data[0] == STR('TIMESTAMP')))
+
+    def setup(it, fr, bound):
+        bound['cls'] = VClass('ManifestEntryTIMESTAMP', 'gemato.manifest')
+        fr.locals['cls'] = bound['cls']
+        it.entry_args['cls'] = bound['cls']
+    c.setup = setup
+    c.ensures('one-well-formed-timestamp',
+              lambda s: z3.And(z3.Length(s.data) == 2, strptime_ok(s.data[1]), s.result.is_class('ManifestEntryTIMESTAMP')))
+    c.exc_ensures('rejected-only-if-malformed', 'ManifestSyntaxError',
+                  lambda s: z3.Or(z3.Length(s.data) != 2, z3.Not(strptime_ok(s.data[1]))))
+
+
+# --------------------------------------------------------------------------
+# ManifestFile.load -- the loader FSM against the cleartext-signature grammar (C04, C09, C05)
+
+SS = z3.StringSort()
+SeqSS = z3.SeqSort(SS)
+SeqSeqSS = z3.SeqSort(SeqSS)
+strip_ws = z3.Function('py_strip_ws', SS, SS)
+rstrip_ws = z3.Function('py_rstrip_ws', SS, SS)
+split_ws = z3.Function('py_split_ws', SS, SeqSS)
+BEGIN = STR('-----BEGIN PGP SIGNED MESSAGE-----\n')
+SIGHDR = STR('-----BEGIN PGP SIGNATURE-----\n')
+SIGEND = STR('-----END PGP SIGNATURE-----\n')
+
+
+def armor(l):
+    return z3.And(z3.PrefixOf(STR('-----'), l), z3.SuffixOf(STR('-----'), rstrip_ws(l)))
+
+
+def unesc(l):
+    return z3.If(z3.PrefixOf(STR('- '), l), z3.SubString(l, 2, z3.Length(l) - 2), l)
+
+
+def toks(l):
+    return split_ws(strip_ws(l))
+
+
+def nonblank_hdr(l):
+    return z3.Length(strip_ws(l)) > 0
+
+
+def _rng(idx, lo, then, acc):
+    return z3.If(idx >= lo, then, acc)
+
+
+plain_ok = S.Fold('ld_plain_ok', z3.BoolSort(), init=lambda env: True,
+                  step=lambda env, acc, l, idx: z3.And(acc, z3.Not(armor(l))))
+ents_plain = S.Fold('ld_ents_plain', SeqSeqSS, init=lambda env: z3.Empty(SeqSeqSS),
+                    step=lambda env, acc, l, idx: z3.If(z3.Length(toks(l)) > 0, z3.Concat(acc, z3.Unit(toks(l))), acc))
+ents_signed = S.Fold('ld_ents_signed', SeqSeqSS, init=lambda env, lo: z3.Empty(SeqSeqSS),
+                     step=lambda env, acc, l, idx, lo: _rng(
+                         idx, lo, z3.If(z3.Length(toks(unesc(l))) > 0, z3.Concat(acc, z3.Unit(toks(unesc(l)))), acc), acc), range_lo=0)
+hdr_nonblank = S.Fold('ld_hdr_nonblank', z3.BoolSort(), init=lambda env, lo: True,
+                      step=lambda env, acc, l, idx, lo: _rng(idx, lo, z3.And(acc, nonblank_hdr(l)), acc), range_lo=0)
+body_ok = S.Fold('ld_body_ok', z3.BoolSort(), init=lambda env, lo: True,
+                 step=lambda env, acc, l, idx, lo: _rng(idx, lo, z3.And(acc, l != SIGHDR, z3.Not(armor(unesc(l)))), acc), range_lo=0)
+sig_ok = S.Fold('ld_sig_ok', z3.BoolSort(), init=lambda env, lo: True,
+                step=lambda env, acc, l, idx, lo: _rng(idx, lo, z3.And(acc, l != SIGEND, z3.Not(armor(l))), acc), range_lo=0)
+tail_blank = S.Fold('ld_tail_blank', z3.BoolSort(), init=lambda env, lo: True,
+                    step=lambda env, acc, l, idx, lo: _rng(idx, lo, z3.And(acc, z3.Length(toks(l)) == 0, z3.Not(armor(l))), acc), range_lo=0)
+join_lines = S.Fold('ld_join', SS, init=lambda env, lo: z3.StringVal(''),
+                    step=lambda env, acc, l, idx, lo: _rng(idx, lo, z3.Concat(acc, l), acc), range_lo=0)
+
+ST_DATA, ST_PRE, ST_SIGNED, ST_SIG, ST_POST = 0, 1, 2, 3, 4
+
+
+def load_invariant(s, i):
+    L = s.seq if s.has_extra('seq') else s.seq1
+    st = s.cur.state
+    D = s.cur.openpgp_data
+    v = s.verify_openpgp
+    b, h, g, e, fed = s.b, s.h, s.g, s.e, s.fed
+    E = s.self.entries
+    no_data = D == STR('')
+    pre_facts = z3.And(0 <= b, L[b] == BEGIN, plain_ok(s, L, b), ents_plain(s, L, b) == z3.Empty(SeqSeqSS))
+    signed_facts = z3.And(pre_facts, b < h, nonblank_hdr(L[h]) == False, hdr_nonblank(s, L, h, b + 1))
+    sig_facts = z3.And(signed_facts, h < g, L[g] == SIGHDR, body_ok(s, L, g, h + 1), fed == ents_signed(s, L, g, h + 1))
+    cases = {
+        'data': z3.Implies(st == ST_DATA, z3.And(no_data, plain_ok(s, L, i), fed == ents_plain(s, L, i))),
+        'preamble': z3.Implies(st == ST_PRE, z3.And(pre_facts, b < i, z3.Length(fed) == 0, hdr_nonblank(s, L, i, b + 1),
+                                                  z3.If(v, D == join_lines(s, L, i, b), no_data))),
+        'signed': z3.Implies(st == ST_SIGNED, z3.And(signed_facts, h < i, body_ok(s, L, i, h + 1),
+                                                   fed == ents_signed(s, L, i, h + 1),
+                                                   z3.If(v, D == join_lines(s, L, i, b), no_data))),
+        'signature': z3.Implies(st == ST_SIG, z3.And(sig_facts, g < i, sig_ok(s, L, i, g + 1),
+                                                   z3.If(v, D == join_lines(s, L, i, b), no_data))),
+        'post': z3.Implies(st == ST_POST, z3.And(sig_facts, g < e, e < i, L[e] == SIGEND, sig_ok(s, L, e, g + 1),
+                                               tail_blank(s, L, i, e + 1),
+                                               z3.If(v, D == join_lines(s, L, e + 1, b), no_data))),
+        'common': z3.And(z3.Length(E) == z3.Length(fed), i <= z3.Length(L)),
+    }
+    return cases
+
+
+def load_ghost_update(s):
+    i = s.i
+    pre, post = s.pre.cur.state, s.cur.state
+    out = {
+        'b': s.ite(z3.And(pre == ST_DATA, post == ST_PRE), i, s.b),
+        'h': s.ite(z3.And(pre == ST_PRE, post == ST_SIGNED), i, s.h),
+        'g': s.ite(z3.And(pre == ST_SIGNED, post == ST_SIG), i, s.g),
+        'e': s.ite(z3.And(pre == ST_SIG, post == ST_POST), i, s.e),
+    }
+    fed = s.fed
+    for text, args, kwargs, raw in s.calls:
+        if text.endswith('.from_list'):
+            fed = z3.Concat(fed, z3.Unit(args[0]))
+    out['fed'] = fed
+    return out
+
+
+@contract('gemato/manifest.py', 'ManifestFile.load', props=['C04', 'C09', 'C05', 'C18', 'C08'])
+def _(c):
+    c.params(self=MF, f=SeqT(Str, 'lines'), verify_openpgp=Bool, openpgp_env=Opt(Any))
+    c.returns(NoneT)
+    c.only_raises('ManifestSyntaxError', 'ManifestUnsignedData', 'AssertionError', '<opaque>')
+    c.note('AssertionError only for verify_openpgp with a signed Manifest and no openpgp_env (API misuse; callers pass one); '
+           '<opaque> = whatever openpgp_env.verify_file raises')
+
+    def setup(it, fr, bound):
+        from vp.symex import PyRaise
+        it.engine.re_sub_hook = re_sub_hook
+
+        def attr_hook(itp, obj, name, node):
+            if name != 'verify_file':
+                return None
+
+            def vf(itq, a, k, n):
+                itq.ctx.ghost.setdefault('verify_calls', []).append(
+                    (a[0], dict(itq.ctx.heap), list(itq.ctx.pc)))
+                d = itq.ctx.choose(2, 'verify_file-outcome')
+                if d == 1:
+                    raise PyRaise(VExc('BaseException', [], {'opaque': True}, line=getattr(n, 'lineno', None)))
+                return VOpaque(itq.ctx.fresh_const('sigdata', U))
+            f_ = VFunc('openpgp_env.verify_file', vf)
+            f_.bind = False
+            return f_
+        it.engine.opaque_attr_hook = attr_hook
+    c.setup = setup
+
+    c.loop(1, header='for line in f',
+           vars={'state': Int, 'openpgp_data': Str, 'sl': None, 'tag': None},
+           ghosts={'b': Int, 'h': Int, 'g': Int, 'e': Int, 'fed': SeqT(SeqT(Str))},
+           ghost_init=lambda s: {'b': z3.IntVal(-1), 'h': z3.IntVal(-1), 'g': z3.IntVal(-1), 'e': z3.IntVal(-1),
+                                 'fed': z3.Empty(SeqSeqSS)},
+           ghost_update=load_ghost_update,
+           inv=[('fsm-' + k, (lambda k: lambda s: load_invariant(s, s.i)[k])(k))
+                for k in ('data', 'preamble', 'signed', 'signature', 'post', 'common')],
+           light_inv=[('state-range', lambda s: z3.And(s.cur.state >= 0, s.cur.state <= 4))])
+
+    def normal(s):
+        L = s.seq1
+        n = z3.Length(L)
+        st = s.cur.state
+        fed = s.fed
+        b, h, g, e = s.b, s.h, s.g, s.e
+        unsigned = z3.And(st == ST_DATA, plain_ok(s, L, n), fed == ents_plain(s, L, n),
+                          s.self.openpgp_signed == opt_sort(z3.BoolSort()).some(z3.BoolVal(False)))
+        signed = z3.And(st == ST_POST, 0 <= b, b < h, h < g, g < e, e < n,
+                        L[b] == BEGIN, plain_ok(s, L, b), ents_plain(s, L, b) == z3.Empty(SeqSeqSS),
+                        hdr_nonblank(s, L, h, b + 1), z3.Not(nonblank_hdr(L[h])),
+                        body_ok(s, L, g, h + 1), L[g] == SIGHDR, sig_ok(s, L, e, g + 1), L[e] == SIGEND,
+                        tail_blank(s, L, n, e + 1),
+                        fed == ents_signed(s, L, g, h + 1))
+        return z3.And(z3.Length(s.self.entries) == z3.Length(fed), z3.Or(unsigned, signed))
+    c.ensures('entries-are-exactly-the-signed-cleartext-or-the-whole-plain-file', normal)
+
+    def signed_flag(s):
+        calls = s.ghost('verify_calls', [])
+        OB = opt_sort(z3.BoolSort())
+        flag = s.self.openpgp_signed
+        if not calls:
+            return flag == OB.some(z3.BoolVal(False))
+        return z3.And(flag == OB.some(z3.BoolVal(True)), s.verify_openpgp, s.cur.state == ST_POST)
+    c.ensures('signed-flag-only-after-successful-verification', signed_flag, props=['C04', 'C05'])
+
+    def verified_text(s):
+        calls = s.ghost('verify_calls', [])
+        if not calls:
+            return z3.Or(z3.Not(s.verify_openpgp), s.cur.state == ST_DATA)
+        arg, heap, pc = calls[-1]
+        return z3.And(len(calls) == 1, arg.content.t == join_lines(s, s.seq1, s.e + 1, s.b))
+    c.ensures('verification-gets-exactly-BEGIN-through-END', verified_text, props=['C04', 'C05'])
+
+    def unsigned_data(s):
+        L = s.seq1
+        i = s.i1
+        st = s.cur.state
+        return z3.Or(z3.And(st == ST_DATA, L[i] == BEGIN, z3.Length(s.fed) > 0),
+                     z3.And(st == ST_POST, z3.Length(toks(L[i])) > 0))
+    c.exc_ensures('unsigned-data-only-outside-the-signed-block', 'ManifestUnsignedData', unsigned_data)
+
+    def not_signed_on_failure(s):
+        OB = opt_sort(z3.BoolSort())
+        return s.self.openpgp_signed == OB.some(z3.BoolVal(False))
+    c.exc_ensures('never-signed-when-loading-fails', 'BaseException', not_signed_on_failure, props=['C04', 'C05'])
